@@ -61,7 +61,8 @@ def label(prop: Prop, V: List[dict]) -> List[dict]:
 
 def execute(prop: Prop, scn: dict, *, strategy: str = "uniform", sseed: str = "0", schedule: Optional[List[int]] = None,
             salt: int = 0, expects: Optional[dict] = None) -> Tuple[Any, List[dict], dict]:
-    chooser: core.Chooser = core.ReplayChooser(schedule) if schedule is not None else make_chooser(strategy, sseed, scn)
+    chooser: core.Chooser = core.ReplayChooser(schedule, fair=bool(scn.get("fair_only"))) if schedule is not None \
+        else make_chooser(strategy, sseed, scn)
     run = harness.Run(scn, chooser, salt=salt, watchdog=prop.watchdog,
                       line_points=set(scn["line_points"]) if scn.get("line_points") else None)
     run.execute()
@@ -155,6 +156,10 @@ def worker_batch(job: dict) -> dict:
           shape = scenario_shape(scn)
           for k in range(n_sched):
               strategy = prop.strategies[(i + k) % len(prop.strategies)]
+              if scn.get("fair_only") and strategy not in ("uniform", "sticky"):
+                  # a busy sibling coroutine keeps the loop thread enabled forever: priority / stall schedules would starve
+                  # the workers, which no real (fair) scheduler does
+                  strategy = ("uniform", "sticky")[(i + k) % 2]
               sseed = f"{seed}:S:{k}"
               try:
                   run, F, _ = execute(prop, scn, strategy=strategy, sseed=sseed, salt=k, expects=expects)
